@@ -6,7 +6,9 @@ A tree node is a dict
      "value": "0" | "x" | "fwd" | "k1"   (value the parent passes),
      "outcome": "return" | "revert" | "invalid" | "oob" | "stop" | "symfail" (x == 0 ? revert : INVALID) | "symmix" (x == 0 ? return : revert),
      "post": subset string of "ST": SSTORE / TSTORE slot 0 *after* the node recorded its observations,
-     "children": [nodes]}
+     "children": [nodes],
+     "twin": (created nodes) run the init code of the previous created sibling -- with CREATE2 this is a second creation at the same address;
+             outcome "valmix" of a created node = CALLVALUE == 0 ? revert : deploy}
 kind "SELFCALL" is a value-bearing CALL of the parent to its own address (2 bytes of calldata make the code stop at once); it has no contract of its own.
 Every call forwards the root's calldata word x as 32 bytes of calldata, so callees can branch on it.
 Every node is a contract at its own address.  A node's payload (returned or
@@ -103,12 +105,12 @@ def node_body(n, codes, is_root):
             items += [("push", flag_off), "MSTORE"]
             items += ["RETURNDATASIZE", ("push", rds_off), "MSTORE"]
         elif is_create(c):
-            init = codes[c["id"]]["init"]
+            src = init_owner(n, c)
             # copy init code to scratch memory at 0x2000 from this contract's code (appended as data)
-            items += [("sizeof", f"init{c['id']}"), ("offsetof", f"init{c['id']}"), ("push", 0x2000), "CODECOPY"]
+            items += [("sizeof", f"init{src['id']}"), ("offsetof", f"init{src['id']}"), ("push", 0x2000), "CODECOPY"]
             if c["kind"] == "CREATE2":
                 items += [("push", 0x5A17)]
-            items += [("sizeof", f"init{c['id']}"), ("push", 0x2000)] + value_code(c, is_root) + [c["kind"]]
+            items += [("sizeof", f"init{src['id']}"), ("push", 0x2000)] + value_code(c, is_root) + [c["kind"]]
             items += [("push", flag_off), "MSTORE"]
             items += ["RETURNDATASIZE", ("push", rds_off), "MSTORE"]
             # copy revert data (if any) into the window: size = min(rds, window) is not expressible without a
@@ -132,6 +134,16 @@ def node_body(n, codes, is_root):
         elif e == "T":
             items += [("push", n["marker"] + 0x30000), "PUSH0", "TSTORE"]
     return items
+
+
+def init_owner(parent, c):
+    """the sibling whose init code a created child runs: itself, or (c["twin"]) the previous created sibling --
+    same init code and, for CREATE2, same salt, hence the same address"""
+    if not c.get("twin"):
+        return c
+    sibs = parent["children"]
+    i = next(k for k, s in enumerate(sibs) if s is c)
+    return init_owner(parent, sibs[i - 1])
 
 
 def outcome_code(n, size_words, extra=None):
@@ -166,13 +178,18 @@ def build(tree):
         pw = payload_words(n)
         datas = []
         for c in n["children"]:
-            if is_create(c):
+            if is_create(c) and not c.get("twin"):
                 datas.append(("data", f"init{c['id']}", codes[c["id"]]["init"]))
+        if is_create(n) and n.get("twin"):
+            continue  # runs the previous sibling's init code
         if is_create(n):
             # init code: behaviour, then (outcome return) deploy the dump runtime
             runtime = asm.assemble(dump_code())
+            deploy = [("sizeof", "rt"), ("offsetof", "rt"), "PUSH0", "CODECOPY", ("sizeof", "rt"), "PUSH0", "RETURN"]
             if n["outcome"] == "return":
-                tail = [("sizeof", "rt"), ("offsetof", "rt"), "PUSH0", "CODECOPY", ("sizeof", "rt"), "PUSH0", "RETURN"]
+                tail = deploy
+            elif n["outcome"] == "valmix":  # CALLVALUE == 0 ? revert(payload) : deploy
+                tail = ["CALLVALUE", ("ref", "vm_dep"), "JUMPI", ("push", 32 * pw), ("push", PBASE), "REVERT", ("label", "vm_dep")] + deploy
             else:
                 tail = outcome_code(n, pw)
             init = asm.assemble(body + tail + datas + [("data", "rt", runtime)])
@@ -228,11 +245,14 @@ def created_flag_offsets(tree):
 
 
 def tree_str(n):
-    s = f"{n['kind']}[{n['effects'] or '-'},{n['value']},{n['outcome']}{',post=' + n['post'] if n.get('post') else ''}]"
+    s = f"{n['kind']}{'=' if n.get('twin') else ''}[{n['effects'] or '-'},{n['value']},{n['outcome']}{',post=' + n['post'] if n.get('post') else ''}]"
     if n["children"]:
         s += "(" + ",".join(tree_str(c) for c in n["children"]) + ")"
     return s
 
 
-def mk(kind, effects="", value="0", outcome="return", children=(), post=""):
-    return {"kind": kind, "effects": effects, "value": value, "outcome": outcome, "children": list(children), "post": post}
+def mk(kind, effects="", value="0", outcome="return", children=(), post="", twin=False):
+    n = {"kind": kind, "effects": effects, "value": value, "outcome": outcome, "children": list(children), "post": post}
+    if twin:
+        n["twin"] = True
+    return n
